@@ -580,7 +580,7 @@ def C17(tier):
         "objects_finalized": 15000 * (1 if tier == "quick" else 8),
         "target_order_checked": 5000,
         "cancel_cases": 60,
-        "block_cases": 500,
+        "block_cases": 200,   # seeded draw gives 477..2734 per quick run (seeds 1-3, 101-108); 500 was inside that spread
         "site:_os_object_release_internal_n_inline:4": 100000,
         "site:_dispatch_lane_class_dispose:0": 10000,
         "waiter_schedule_reached": 48,
